@@ -111,7 +111,11 @@ func unaryArithmaticHelperf(op func(float64) float64) KeyBuilderFunction {
 }
 
 // Helper that takes in a float, operates on it, and spits out an int
-func unaryArithmaticHelperfi(op func(float64) int64) KeyBuilderFunction {
+// A result that no int64 can hold (beyond +-2^63, or not finite) is written as the float it is
+// rather than as the arbitrary number the conversion to int64 would give
+func unaryArithmaticHelperfi(op func(float64) float64) KeyBuilderFunction {
+	const int64Limit = float64(1 << 63)
+
 	return func(args []KeyBuilderStage) (KeyBuilderStage, error) {
 		if len(args) != 1 {
 			return stageErrArgCount(args, 1)
@@ -123,7 +127,11 @@ func unaryArithmaticHelperfi(op func(float64) int64) KeyBuilderFunction {
 				return ErrorNum
 			}
 
-			return strconv.FormatInt(op(val), 10)
+			ret := op(val)
+			if ret >= -int64Limit && ret < int64Limit {
+				return strconv.FormatInt(int64(ret), 10)
+			}
+			return strconv.FormatFloat(ret, 'f', 0, 64)
 		}, nil
 	}
 }
